@@ -29,7 +29,7 @@ PROPERTY_PROFILES = {
     'C13': [('parallel', 1.0)],
     'C19': [('timeline', 1.0)],
     'C16': [('composite', 1.0)],
-    'C12': [('kernel', 0.6), ('steps', 0.2), ('struct', 0.2)],
+    'C12': [('kernel', 0.45), ('steps', 0.15), ('struct', 0.15), ('wiring', 0.25)],
 }
 
 
